@@ -103,6 +103,10 @@ func TestVerifC20FsConc(t *testing.T) {
 						return f
 					}
 					local = append(local, ob{prefix + n, g.Path})
+					// the QID Open reports names the same file
+					if oq, _, err := f.Open(p9.ReadOnly); err == nil {
+						local = append(local, ob{prefix + n, oq.Path})
+					}
 					return f
 				}
 				// rendezvous: everybody walks to the same fresh name at the same moment
